@@ -169,6 +169,9 @@ func (e *Engine) discharge(o *Obligation, dir string, idx int, timeoutS int, tho
 	defer cancel()
 	results := make(chan solveResult, len(solvers))
 	var wg sync.WaitGroup
+	if o.ExpectSat && timeoutS > 4 {
+		timeoutS = 4 // vacuity guards: anything but `unsat` passes, so do not wait long for a model
+	}
 	start := func(s solverSpec, delay time.Duration) {
 		wg.Add(1)
 		go func() {
